@@ -148,7 +148,7 @@ def build() -> Check:
             elif cell2 is None and st == ABSENT:
                 bad.append(("after START the refreshed status is not examined", t))
         ck.ob("R3.invoke", c_inv, not bad and traces, (bad[0][0] + ": " + trace_sig(bad[0][1])) if bad else "", cell=st)
-    ck.floor("traces", ntr, 100)
+    ck.floor("traces", ntr, 30)
 
     # ---- R4 wait_for_callback composition ---------------------------------------------------
     wfc = prog.func("operation.callback", "wait_for_callback_handler")
